@@ -94,6 +94,38 @@ def _ok(res=None, num=0):
 
 
 _CHUNK = re.compile(r"0|[1-9][0-9]{0,8}")
+OP_TIMEOUT_S = 20            # an operation that does not return within this is the observation "noreturn"
+ITER_SLACK = 64              # an iteration that yields more than n + ITER_SLACK items is cut off ("garbled")
+WORKER_AS_LIMIT = 1024 << 20  # address space a forked replay worker may add (a mutant must not eat the machine)
+
+
+_LIMITED = False
+
+
+class _NoReturn(BaseException):
+    pass
+
+
+def _alarm(_sig, _frm):
+    raise _NoReturn()
+
+
+def _limit_worker():
+    """In a forked pmap worker (never in the main process, whose children are JVMs): cap the address space."""
+    import multiprocessing
+    import resource
+    global _LIMITED
+    if not _LIMITED and multiprocessing.current_process().name != "MainProcess":
+        _LIMITED = True
+        try:
+            with open("/proc/self/statm") as fh:
+                cur = int(fh.read().split()[0]) * os.sysconf("SC_PAGE_SIZE")
+        except Exception:
+            cur = 1 << 30
+        soft, hard = resource.getrlimit(resource.RLIMIT_AS)
+        want = cur + WORKER_AS_LIMIT          # what the worker inherited from the parent + its own allowance
+        if soft == resource.RLIM_INFINITY or soft > want:
+            resource.setrlimit(resource.RLIMIT_AS, (want, hard))
 
 
 class Runner:
@@ -105,6 +137,7 @@ class Runner:
         self.path = os.path.join(directory, "arr")
         self.obj = None
         self.expect_open = False
+        self.dead = False
 
     def listing(self):
         meta, chunks, other = False, [], []
@@ -138,7 +171,12 @@ class Runner:
                 r = _items(a[py_slice(o["sl"])])
                 return _ok(r) if r is not None else {"cls": "garbled", "kind": "type", "res": [], "num": 0}
             if name == "iter":
-                r = _items([x for x in a])
+                got = []
+                for x in a:
+                    got.append(x)
+                    if len(got) > self.par["n"] + ITER_SLACK:      # safety cap, not a judgement: TLC sees "garbled"
+                        return {"cls": "garbled", "kind": "unbounded-iteration", "res": [], "num": 0}
+                r = _items(got)
                 return _ok(r) if r is not None else {"cls": "garbled", "kind": "type", "res": [], "num": 0}
             if name == "set":
                 a[o["i"]] = py_value(o["xs"][0])
@@ -189,14 +227,30 @@ class Runner:
             return None
 
     def step(self, o, chk):
-        out = self.call(o)
+        import signal
         after, note = [], ""
-        if chk:
-            r = self.full_read()
-            if r is None:
-                note = "full read failed"
-            else:
-                after = r
+        old = signal.signal(signal.SIGALRM, _alarm)
+        signal.setitimer(signal.ITIMER_REAL, OP_TIMEOUT_S)
+        try:
+            try:
+                out = self.call(o)
+            except (_NoReturn, MemoryError):
+                out = {"cls": "noreturn", "kind": "", "res": [], "num": 0}
+                self.dead = True
+                note = "operation did not return within %ds (or exhausted memory); trace ends here" % OP_TIMEOUT_S
+            if chk and not self.dead:
+                try:
+                    r = self.full_read()
+                except (_NoReturn, MemoryError):
+                    r = None
+                    self.dead = True
+                if r is None:
+                    note = "full read failed"
+                else:
+                    after = r
+        finally:
+            signal.setitimer(signal.ITIMER_REAL, 0)
+            signal.signal(signal.SIGALRM, old)
         return {"o": o, "out": out, "chk": bool(chk), "after": after, "files": self.listing(), "note": note}
 
     def shutdown(self):
@@ -246,6 +300,7 @@ def run_case(case):
     mode lazy: no intermediate reads; finally close + reopen + full read.
     mode last: no reads before the last operation (the one under test in a transition-covering history);
                full read through the handle after it, then close + reopen + full read."""
+    _limit_worker()
     d = os.path.join(datadir(), "%s-%d" % (case["tid"], os.getpid()))
     shutil.rmtree(d, ignore_errors=True)
     os.makedirs(d)
@@ -254,13 +309,15 @@ def run_case(case):
     try:
         mode = case["mode"]
         ops = case["ops"]
-        ev.append(rn.step(op("create"), mode == "full"))
-        for k, o in enumerate(ops):
-            ev.append(rn.step(o, mode == "full" or (mode == "last" and k == len(ops) - 1)))
+        plan = [(op("create"), mode == "full")]
+        plan += [(o, mode == "full" or (mode == "last" and k == len(ops) - 1)) for k, o in enumerate(ops)]
         if mode != "full":
             fin = finishing_ops(ops)
-            for k, o in enumerate(fin):
-                ev.append(rn.step(o, k == len(fin) - 1))
+            plan += [(o, k == len(fin) - 1) for k, o in enumerate(fin)]
+        for o, chk in plan:
+            ev.append(rn.step(o, chk))
+            if rn.dead:           # the state of the object is unknown after an operation that did not return
+                break
     finally:
         rn.shutdown()
         shutil.rmtree(d, ignore_errors=True)
@@ -283,14 +340,19 @@ def tlc_histories(tr):
     cfg = ("CONSTANTS MaxLen = %(maxlen)d\nBaseSl <- %(base)s\nWideSl <- %(wide)s\nBaseLists <- %(lists)s\n"
            "WideLists <- %(wlists)s\nWideFresh = %(wfresh)s\nEmitOn = TRUE\nSPECIFICATION MCSpec\nVIEW MCView\n" % k
            + "".join("INVARIANT %s\n" % i for i in INVARIANTS) + "PROPERTY LenConst\nCHECK_DEADLOCK FALSE\n")
-    r = run_tlc("MC_PArray", cfg, workers=min(8, os.cpu_count() or 4), coverage=True, timeout=900)
+    r = run_tlc("MC_PArray", cfg, workers=min(8, os.cpu_count() or 4), coverage=True, timeout=900, heap="2g",
+                env=LONG_RUN_ENV if tr != "quick" else None)
     alpha = {}
 
     def tv(raw):        # TLC's pretty printer may break the line after "|->"; tla_value expects one space
         return tla_value(re.sub(r"\|->\s+", "|-> ", raw))
-    for raw in parse_printed(r.out, "A"):
-        v = tv(raw)
-        alpha[(v[1], v[2])] = v[3]
+    for raw in parse_printed(r.out, "A"):       # printed once per initial state: parse one per (n, kind)
+        m = re.match(r'<<\s*"A",\s*(\d+),\s*"(\w+)"', raw)
+        if not m:
+            raise MachineryError("MC_PArray: cannot read alphabet header %r" % raw[:60])
+        key = (int(m.group(1)), m.group(2))
+        if key not in alpha:
+            alpha[key] = tv(raw)[3]
     states = [tv(raw) for raw in parse_printed(r.out, "S")]
     if len(states) != r.distinct:
         raise MachineryError("MC_PArray: %d states emitted, TLC reports %d distinct" % (len(states), r.distinct))
@@ -448,6 +510,9 @@ def check_pyslice(traces):
 # ---------------------------------------------------------------------------
 
 LAYERB_INV = ["TypeOKB", "Refines", "FilesInv", "CacheSane"]
+# a TLC run of more than a few seconds is better off with the optimising compiler (the default set in main() is
+# tuned for the many short trace-validation JVMs)
+LONG_RUN_ENV = {"JAVA_TOOL_OPTIONS": "-XX:ParallelGCThreads=4"}
 _RE_ACT = re.compile(r"^<(\w+) line \d+, col \d+ to line \d+, col \d+ of module (\w+)>: (\d+):(\d+)", re.M)
 
 
@@ -472,7 +537,7 @@ def check_layer_b(tr):
         return ("CONSTANTS MaxLenB = %d\nNormaliseReads = %s\nSPECIFICATION SpecB\n" % (ml, variant)
                 + "".join("INVARIANT %s\n" % i for i in invs) + "CHECK_DEADLOCK FALSE\n")
     good = run_tlc("PArrayImpl", cfg(maxlen, "TRUE", LAYERB_INV), workers=nw, coverage=True, allow_violation=True,
-                   timeout=1500, name="PArrayImpl-fixed")
+                   timeout=1500, name="PArrayImpl-fixed", heap="2g", env=LONG_RUN_ENV)
     if good.violated:
         raise MachineryError("Layer B (reads normalised) violates Layer A at model level: %s\n%s"
                              % (good.violated, "\n".join(l for l in good.out.splitlines() if "|" not in l[:12])[-6000:]))
@@ -483,7 +548,7 @@ def check_layer_b(tr):
     old = {}
     for inv in ("Refines", "FilesInv", "CacheSane"):
         r = run_tlc("PArrayImpl", cfg(3, "FALSE", [inv]), workers=nw, allow_violation=True, timeout=600,
-                    name="PArrayImpl-old-" + inv)
+                    name="PArrayImpl-old-" + inv, heap="1g")
         if r.violated != inv:
             raise MachineryError("Layer B without read normalisation was expected to violate %s (sensitivity of the "
                                  "model-level check), TLC says: %s" % (inv, r.violated))
@@ -517,18 +582,54 @@ def canon(par, ops):
 
 def validate(traces):
     # many short-lived JVMs: a few thousand traces per JVM amortise the start-up; more shards only add load
-    shards = max(1, min(8, os.cpu_count() or 4, len(traces) // 2000))
+    shards = max(1, min(4, os.cpu_count() or 4, len(traces) // 1500))
     return validate_traces("Trace_PArray", [{"tid": t["tid"], "par": t["par"], "ev": t["ev"]} for t in traces],
                            timeout=3000, shards=shards)
 
 
+BATCH = 8000          # cases replayed and validated at a time: bounds what is held in memory
+NPROC = 8
+
+
+def sample_histories(hists, cap, rnd):
+    """Quick tier: a stratified, seeded sample of the transition-covering set - the same number (as far as
+    possible) from every (n, pf, kind of state, last operation) class."""
+    groups = {}
+    for par, h in hists:
+        st = "closed" if finishing_ops(h[:-1])[0]["op"] == "reopen" else "open"
+        groups.setdefault((par["n"], par["pf"], st, h[-1]["op"]), []).append((par, h))
+    keys = sorted(groups)
+    for k in keys:
+        rnd.shuffle(groups[k])
+    out = []
+    level = 0
+    while len(out) < cap:
+        took = False
+        for k in keys:
+            if level < len(groups[k]) and len(out) < cap:
+                out.append(groups[k][level])
+                took = True
+        if not took:
+            break
+        level += 1
+    return out
+
+
+def nontrivial(t):
+    wrote = any(e["o"]["op"] in ("set", "setslice") and e["out"]["cls"] == "ok" and e["o"]["xs"] for e in t["ev"])
+    read = any(e["o"]["op"] in ("get", "getslice", "iter", "contains") and e["out"]["cls"] == "ok" for e in t["ev"])
+    return wrote and (read or any(e["chk"] for e in t["ev"][1:]))
+
+
 def main(argv_tier=None, replay_path=None):
+    import hashlib
     t0 = time.time()
     tr = tier(argv_tier)
     impl()
     # the TLC runs of this check are many and short: C1-only compilation and few GC threads cut their CPU cost
-    # several times (measured: 16k traces 130 s -> 20 s of CPU); an explicit JAVA_TOOL_OPTIONS wins
-    os.environ.setdefault("JAVA_TOOL_OPTIONS", "-XX:TieredStopAtLevel=1 -XX:ParallelGCThreads=2 -Xmx4g")
+    # several times (measured: 16k traces 130 s -> 20 s of CPU) and the heap is kept small; an explicit
+    # JAVA_TOOL_OPTIONS wins.  (run_tlc passes its own -Xmx, which overrides the one here.)
+    os.environ.setdefault("JAVA_TOOL_OPTIONS", "-XX:TieredStopAtLevel=1 -XX:ParallelGCThreads=2 -Xmx1500m")
     if replay_path:
         with open(replay_path) as fh:
             rp = json.load(fh)
@@ -545,47 +646,71 @@ def main(argv_tier=None, replay_path=None):
         if f.startswith(PROP + "-"):        # replays written by an earlier run of this check are stale
             os.unlink(os.path.join(rdir, f))
     rnd = random.Random(seed() * 7919 + 19)
-    # the TLC-only tasks run side by side: PySlice vs CPython, the generator, and Layer B (joined at the end)
-    from concurrent.futures import ThreadPoolExecutor
-    subdir("tlc")
-    sl_traces, n_slice_calls = pyslice_traces(tr, rnd)
-    pool = ThreadPoolExecutor(3)
-    f_sl = pool.submit(check_pyslice, sl_traces)
-    f_lb = pool.submit(check_layer_b, tr)
-    hists, r, info = tlc_histories(tr)
 
-    cases = []
-    for k, (par, ops) in enumerate(hists):
-        cases.append({"tid": "t%d" % k, "par": par, "ops": ops, "mode": "last", "src": "tlc"})
-    nrand = 400 if tr == "quick" else 6000
+    # 1. the specification's own footing: PySlice.tla against the running CPython
+    sl_traces, n_slice_calls = pyslice_traces(tr, rnd)
+    check_pyslice(sl_traces)
+    del sl_traces
+    ta = time.time()
+    # 2. Layer A bounded instance: invariants + transition-covering histories
+    hists, r, info = tlc_histories(tr)
+    n_emitted = len(hists)
+    r_counts = action_counts(r.out)
+    r = {"distinct": r.distinct, "generated": r.generated, "depth": r.depth}
+    if tr == "quick":
+        hists = sample_histories(hists, 8000, random.Random(seed() + 19))
+    tb = time.time()
+    # 3. Layer B against Layer A
+    lb_good, lb_acts, lb_old = check_layer_b(tr)
+    lb = {"distinct": lb_good.distinct, "generated": lb_good.generated, "depth": lb_good.depth}
+    del lb_good
+    t1 = time.time()
+
+    # 4./5. replay on the real class and validate, in bounded batches
+    cases = [{"tid": "t%d" % k, "par": par, "ops": ops, "mode": "last", "src": "tlc"} for k, (par, ops) in enumerate(hists)]
+    n_tlc = len(cases)
+    del hists
+    nrand = 400 if tr == "quick" else 4000
     for k in range(nrand):
         par, ops = rand_history(rnd)
         for mode in ("full", "lazy"):
             cases.append({"tid": "r%d%s" % (k, mode[0]), "par": par, "ops": ops, "mode": mode, "src": "random"})
-
-    t1 = time.time()
-    traces = pmap(run_case, cases)
-    t2 = time.time()
-    verdicts, agg = validate(traces)
+    datadir()                      # created (and removed at exit) by the parent, shared by the forked workers
+    rej, drift, distinct, samples = [], {}, set(), []
+    nrec = raised = ntraces = tv_states = 0
+    t_replay = t_valid = 0.0
+    sample_tids = {"t%d" % (n_tlc // 3 * 2), "r%df" % (nrand - 1), "r%dl" % (nrand - 1)}
+    for b in range(0, len(cases), BATCH):
+        chunk = cases[b:b + BATCH]
+        tx = time.time()
+        traces = pmap(run_case, chunk, nproc=NPROC)
+        ty = time.time()
+        verdicts, agg = validate(traces)
+        t_replay += ty - tx
+        t_valid += time.time() - ty
+        tv_states += agg["distinct"]
+        ntraces += len(traces)
+        for c, t in zip(chunk, traces):
+            v = verdicts[t["tid"]]
+            nrec += len(t["ev"])
+            raised += sum(1 for e in t["ev"] if e["out"]["cls"] == "raised")
+            if nontrivial(t):
+                distinct.add(hashlib.md5((canon(c["par"], c["ops"]) + c["mode"]).encode()).digest())
+            if c["tid"] in sample_tids:
+                samples.append({"history": canon(c["par"], c["ops"]), "mode": c["mode"], "events": t["ev"][:6]})
+            if not v["ok"]:
+                keep = len(rej) < 400
+                rej.append({"key": v["clause"], "case": c, "trace": t if keep else None, "verdict": v})
+            elif v["clause"]:
+                drift.setdefault(v["clause"].split("@")[0], []).append(c["tid"])
+        del traces, verdicts
     t3 = time.time()
-    f_sl.result()
-    lb_good, lb_acts, lb_old = f_lb.result()
-    pool.shutdown()
-    t4 = time.time()
 
-    rej, drift = [], {}
-    for c, t in zip(cases, traces):
-        v = verdicts[t["tid"]]
-        if not v["ok"]:
-            rej.append({"key": v["clause"], "case": c, "trace": t, "verdict": v})
-        elif v["clause"]:
-            key = v["clause"].split("@")[0]
-            drift.setdefault(key, []).append(c["tid"])
     for key, tids in sorted(drift.items()):
         print("DRIFT property=%s %s: exception class differs from the list's in %d trace(s), e.g. %s"
               % (PROP, key, len(tids), tids[0]))
     viol, seen = classify(PROP, rej)
-    # shortest failing history first, one replay per (clause, mode) class first
+    # shortest failing history first, and one of every (clause, mode) class before the second of any
     viol.sort(key=lambda x: (len(x["case"]["ops"]), x["case"]["par"]["n"], x["case"]["tid"]))
     firsts, rest, keys = [], [], set()
     for x in viol:
@@ -593,11 +718,11 @@ def main(argv_tier=None, replay_path=None):
         (rest if kk in keys else firsts).append(x)
         keys.add(kk)
     vio_out = []
-    for x in (firsts + rest)[:20]:
+    for x in [y for y in firsts + rest if y["trace"] is not None][:20]:
         c = x["case"]
-        p = write_replay(PROP, c["tid"], {"par": c["par"], "ops": c["ops"], "mode": c["mode"], "events": x["trace"]["ev"],
-                                         "verdict": x["verdict"], "seed": seed(), "history": canon(c["par"], c["ops"])})
         h = canon(c["par"], c["ops"])
+        p = write_replay(PROP, c["tid"], {"par": c["par"], "ops": c["ops"], "mode": c["mode"], "events": x["trace"]["ev"],
+                                         "verdict": x["verdict"], "seed": seed(), "history": h})
         vio_out.append(("step %d %s mode=%s %s" % (x["verdict"]["step"], x["verdict"]["clause"], c["mode"],
                                                    h if len(h) < 240 else h[:240] + " ..."), p))
     n_viol = len(viol)
@@ -605,51 +730,48 @@ def main(argv_tier=None, replay_path=None):
     for x in viol:
         by_clause[x["verdict"]["clause"]] = by_clause.get(x["verdict"]["clause"], 0) + 1
 
-    def nontrivial(t):
-        wrote = any(e["o"]["op"] in ("set", "setslice") and e["out"]["cls"] == "ok" and e["o"]["xs"] for e in t["ev"])
-        read = any(e["o"]["op"] in ("get", "getslice", "iter", "contains") and e["out"]["cls"] == "ok" for e in t["ev"])
-        return wrote and (read or any(e["chk"] for e in t["ev"][1:]))
-    distinct = {canon(c["par"], c["ops"]) + c["mode"] for c, t in zip(cases, traces) if nontrivial(t)}
-    nrec = sum(len(t["ev"]) for t in traces)
-    raised = sum(1 for t in traces for e in t["ev"] if e["out"]["cls"] == "raised")
-    sample_ix = [len(hists) // 3 * 2, len(cases) - 2, len(cases) - 1]
+    k = info["constants"]
     cov = {
-        "states": r.distinct + lb_good.distinct, "transitions": r.generated + lb_good.generated,
-        "layer_a": {"states": r.distinct, "transitions": r.generated, "depth": r.depth, "action_counts_distinct_generated": action_counts(r.out),
-                    "invariants": INVARIANTS[1:] + ["LenConst"], "constants": info},
-        "layer_b": {"states": lb_good.distinct, "transitions": lb_good.generated, "depth": lb_good.depth,
+        "states": r["distinct"] + lb["distinct"], "transitions": r["generated"] + lb["generated"],
+        "layer_a": {"states": r["distinct"], "transitions": r["generated"], "depth": r["depth"],
+                    "action_counts_distinct_generated": r_counts,
+                    "invariants": INVARIANTS[1:] + ["LenConst"], "generator": info},
+        "layer_b": {"states": lb["distinct"], "transitions": lb["generated"], "depth": lb["depth"],
                     "action_counts_distinct_generated": lb_acts, "invariants": LAYERB_INV,
                     "variant_without_read_normalisation_violates": lb_old},
         "pyslice_calls_checked_against_cpython": n_slice_calls,
-        "traces_validated_against_impl": len(traces),
+        "traces_validated_against_impl": ntraces,
         "trace_records": nrec, "records_with_raised_outcome": raised,
-        "trace_validation_states": agg["distinct"],
-        "tlc_histories": len(hists), "random_histories": nrand,
-        "evaluations": len(traces), "distinct_nontrivial": len(distinct),
-        "rule": "every transition of MC_PArray (n<=%d, pf in 1..n+2, item size 2, values A/B/Z/oversized/non-bytes, indices "
-                "-n-1..n, slices %s x lists %s at every state and %s x %s at the seed states) as shortest history + operation, "
-                "run in mode last; plus %d seeded random histories of length 40 (n 1..40, item size 1..9, pf 1..n+2) run in mode "
-                "full and in mode lazy; non-trivial = at least one successful write with a value and a successful "
-                "read or full read after it; distinct by (parameters, operations, mode)"
-                % (info["constants"]["maxlen"], info["constants"]["base"], info["constants"]["lists"],
-                   info["constants"]["wide"], info["constants"]["wlists"], nrand),
-        "exhaustive": True,
-        "samples": [{"history": canon(cases[i]["par"], cases[i]["ops"]), "mode": cases[i]["mode"],
-                     "events": traces[i]["ev"][:6]} for i in sample_ix],
-        "drift": {k: len(v) for k, v in drift.items()},
+        "trace_validation_states": tv_states,
+        "tlc_histories_emitted": n_emitted, "tlc_histories_replayed": n_tlc, "random_histories": nrand,
+        "evaluations": ntraces, "distinct_nontrivial": len(distinct),
+        "rule": "transitions of MC_PArray (n<=%d, pf in 1..n+2, item size 2, values A/B/Z/oversized/non-bytes, indices -n-1..n, "
+                "slices %s x lists %s at every state and %s x %s at the seed states), each as shortest history + operation, run "
+                "in mode last (%s); plus %d seeded random histories of length 40 (n 1..40, item size 1..9, pf 1..n+2) run in "
+                "mode full and in mode lazy; non-trivial = at least one successful write of a value and a successful read or "
+                "full read after it; distinct by (parameters, operations, mode)"
+                % (k["maxlen"], k["base"], k["lists"], k["wide"], k["wlists"],
+                   "all %d" % n_emitted if n_tlc == n_emitted else
+                   "stratified seeded sample of %d of the %d: equal shares per (n, pf, open/closed, last operation)" % (n_tlc, n_emitted),
+                   nrand),
+        "exhaustive": n_tlc == n_emitted,
+        "samples": samples,
+        "drift": {kk: len(v) for kk, v in drift.items()},
         "rejections_by_clause": by_clause,
-        "timing_s": {"tlc_generator": round(t1 - t0, 1), "replay": round(t2 - t1, 1), "trace_validation": round(t3 - t2, 1),
-                     "waiting_for_layer_b": round(t4 - t3, 1)},
+        "timing_s": {"pyslice": round(ta - t0, 1), "tlc_generator": round(tb - ta, 1), "layer_b": round(t1 - tb, 1),
+                     "replay": round(t_replay, 1), "trace_validation": round(t_valid, 1)},
         "model": "spec/store/PArray.tla via MC_PArray; PArrayImpl (Layer B); trace spec Trace_PArray; PySlice via Trace_PySlice",
     }
     out = finish(PROP, tr, t0, cov, vio_out, seen, assumptions=[
-        "the full read after every step goes through the handle under test (arr[:]) and therefore opens / creates every "
-        "chunk file; the lazy run of the same history takes no intermediate reads (directory listing only) and ends with "
+        "the full read after a step goes through the handle under test (arr[:]) and therefore opens / creates every "
+        "chunk file; modes last and lazy take no reads before the point of interest (directory listing only) and end with "
         "close + reopen + full read",
         "while the user's handle is closed the full read is taken through a fresh SPFLBArray.open() that is closed again",
         "exception classes are not part of the property (reported as DRIFT); closing a closed array may or may not raise",
         "CPython's slice.indices and range as transcribed in PySlice.tla (checked against the running interpreter each run)",
-        "scratch directory on the local file system; no concurrent access; no crash between operations (C13 covers crashes)"])
+        "scratch directory on a local (RAM-backed when available) file system; no concurrent access; no crash between "
+        "operations (C13 covers crashes)",
+        "an operation that does not return within %d s is recorded as outcome noreturn and rejected" % OP_TIMEOUT_S])
     if n_viol > len(vio_out):
         print("%s: %d rejected traces in total (%s)" % (PROP, n_viol, ", ".join("%s x%d" % kv for kv in sorted(by_clause.items()))))
     return out
